@@ -432,40 +432,67 @@ pub fn gen_c05(run: &mut Run, seed: u64, thorough: bool) {
                 Some(a) => Addr::parse(a),
                 None => continue,
             };
-            let bal = parse_i128(&i.op(&format!("tok.balance {} {}", taddr.tok(), user.tok()), "q"));
+            let mut user = user;
+            let mut bal = parse_i128(&i.op(&format!("tok.balance {} {}", taddr.tok(), user.tok()), "q"));
+            if bal == 0 {
+                // prefer a holder, so that most operations are valid
+                for u in users.iter() {
+                    let b = parse_i128(&i.op(&format!("tok.balance {} {}", taddr.tok(), u.tok()), "q"));
+                    if b > 0 {
+                        user = u.clone();
+                        bal = b;
+                        break;
+                    }
+                }
+            }
             let custody = parse_i128(&i.op(&format!("tok.balance {} {}", taddr.tok(), i.its.tok()), "q"));
             match i.g.rng.below(12) {
                 0..=4 => {
-                    // outbound
-                    let (amt, ac) = match i.g.rng.below(8) {
-                        0 => (0, "amt0"),
-                        1 => (-1, "amt-neg"),
-                        2 => (bal, "amt-bal"),
-                        3 => (bal + 1, "amt-bal+1"),
-                        _ => (i.g.rng.range(1, 60) as i128, "amt-small"),
+                    // outbound: mostly valid, at most ONE deviation (amount / destination / gas / authorisation)
+                    let dev = i.g.rng.below(10);
+                    let (amt, ac) = if dev == 0 {
+                        match i.g.rng.below(4) {
+                            0 => (0, "amt0"),
+                            1 => (-1, "amt-neg"),
+                            2 => (bal + 1, "amt-bal+1"),
+                            _ => (i128::MAX, "amt-max"),
+                        }
+                    } else if i.g.rng.chance(1, 4) && bal > 0 {
+                        (bal, "amt-bal")
+                    } else {
+                        ((i.g.rng.range(1, 60) as i128).min(bal.max(1)), "amt-small")
                     };
-                    let (dest, dc) = match i.g.rng.below(8) {
-                        0 => (b"polygon".to_vec(), "dest-untrusted"),
-                        1 => (i.hub_chain.clone(), "dest-hub-itself"),
-                        2 => (b"avalanche".to_vec(), "dest-avalanche"),
-                        _ => (b"ethereum".to_vec(), "dest-trusted"),
+                    let (dest, dc) = if dev == 1 {
+                        match i.g.rng.below(3) {
+                            0 => (b"polygon".to_vec(), "dest-untrusted"),
+                            1 => (i.hub_chain.clone(), "dest-hub-itself"),
+                            _ => (b"avalanche".to_vec(), "dest-avalanche"),
+                        }
+                    } else {
+                        (b"ethereum".to_vec(), "dest-trusted")
                     };
-                    let (gasamt, gc) = match i.g.rng.below(8) {
-                        0 => (0, "gas0"),
-                        1 => (-1, "gas-neg"),
-                        2 => (100000, "gas-unaffordable"),
-                        _ => (i.g.rng.range(1, 9) as i128, "gas-ok"),
+                    let (gasamt, gc) = if dev == 2 {
+                        match i.g.rng.below(3) {
+                            0 => (0, "gas0"),
+                            1 => (-1, "gas-neg"),
+                            _ => (100000, "gas-unaffordable"),
+                        }
+                    } else {
+                        (i.g.rng.range(1, 9) as i128, "gas-ok")
                     };
-                    let (auth, aucl) = match i.g.rng.below(10) {
-                        0 => ("-".to_string(), "nobody"),
-                        1 => (Addr::c(99).tok(), "stranger"),
-                        2 => (format!("{}~", user.tok()), "root-only"),
-                        3 => (format!("{}!", user.tok()), "other-args"),
-                        4 => (i.owner.tok(), "its-owner"),
-                        _ => (user.tok(), "right"),
+                    let (auth, aucl) = if dev == 3 {
+                        match i.g.rng.below(5) {
+                            0 => ("-".to_string(), "nobody"),
+                            1 => (Addr::c(99).tok(), "stranger"),
+                            2 => (format!("{}~", user.tok()), "root-only"),
+                            3 => (format!("{}!", user.tok()), "other-args"),
+                            _ => (i.owner.tok(), "its-owner"),
+                        }
+                    } else {
+                        (user.tok(), "right")
                     };
                     let data = if i.g.rng.chance(1, 3) { hx(&i.g.rng.bytes(5)) } else { "~".to_string() };
-                    let id_tok = if i.g.rng.chance(1, 15) { hex::encode([0xeeu8; 32]) } else { hex::encode(tid) };
+                    let id_tok = if dev == 4 { hex::encode([0xeeu8; 32]) } else { hex::encode(tid) };
                     let unk = if id_tok.starts_with("eeee") { "-unknown-token" } else { "" };
                     i.op(
                         &format!("its.transfer {} {} {} {} {} {} {} {} {}", user.tok(), id_tok, hx(&dest), hx(b"0xRecipient"), amt, data, i.gas.tok(), gasamt, auth),
